@@ -335,7 +335,7 @@ void reb_collision_search(struct reb_simulation* const r){
                 struct reb_particle p1 = particles[i];
                 vmax2 = MAX(vmax2, p1.vx*p1.vx + p1.vy*p1.vy + p1.vz*p1.vz);
             }
-            double maxdrift = r->dt_last_done*sqrt(vmax2);
+            double maxdrift = fabs(r->dt_last_done)*sqrt(vmax2);
             // Update and simplify tree. 
             // Prepare particles for distribution to other nodes. 
             reb_simulation_update_tree(r);          
@@ -360,7 +360,7 @@ void reb_collision_search(struct reb_simulation* const r){
                 collision_nearest.p2 = -1;
                 double p1_r = p1.r;
                 // Add drift during last timestep
-                double p1_r_plus_dtv = p1_r + r->dt_last_done*sqrt(p1.vx*p1.vx + p1.vy*p1.vy + p1.vz*p1.vz);
+                double p1_r_plus_dtv = p1_r + fabs(r->dt_last_done)*sqrt(p1.vx*p1.vx + p1.vy*p1.vy + p1.vz*p1.vz);
                 // Loop over ghost boxes.
                 for (int gbx=-N_ghost_xcol; gbx<=N_ghost_xcol; gbx++){
                 for (int gby=-N_ghost_ycol; gby<=N_ghost_ycol; gby++){
